@@ -43,6 +43,8 @@ func c17Step(x *engine.Exec) []engine.Failure {
 	switch {
 	case x.Res.Panicked && strings.Contains(e, "integer divide by zero") && prev.Params.TakeRateClaimInterval == 0:
 		cause = "take-rate-interval-zero"
+	case strings.Contains(e, "insufficient funds") && strings.Contains(e, "failed to complete undelegations"):
+		cause = "custody-short-at-unbonding-payout"
 	case strings.Contains(e, "insufficient funds"):
 		cause = "reward-pool-short"
 	case x.Res.Panicked && strings.Contains(e, "overflow"):
@@ -129,10 +131,13 @@ func init() {
 			full.DelFunds["zzz"] = "1000000"
 			full.FullPipeline = true
 			seed := []world.Op{opDel(0, 0, "aaa", "10"), opDel(1, 1, "aaa", "3"), opBlock(1)}
+			// two unbondings of one delegator from one validator in one block are already pending (shared queue record)
+			packed := []world.Op{opDel(0, 0, "aaa", "10"), opDel(1, 1, "aaa", "3"), opBlock(1), opUnd(0, 0, "aaa", "1"), opUnd(0, 0, "aaa", "1"),
+				{K: world.KUndelegateAll, D: 0, V: 0, Denom: "aaa"}, {K: world.KUndelegateAll, D: 1, V: 1, Denom: "aaa"}, opBlock(1)}
 			mk := func(name string, cfg world.Config, stores []string, budgets []int, depth int) *engine.Scenario {
 				return &engine.Scenario{
 					Property: "C17", Name: name, Cfg: cfg, Stores: stores,
-					Seeds: [][]world.Op{seed, nil}, ClassNames: classNames, Budgets: budgets, MaxDepth: depth,
+					Seeds: tierPick(tier, [][]world.Op{seed, packed}, [][]world.Op{seed, nil, packed}), ClassNames: classNames, Budgets: budgets, MaxDepth: depth,
 					Ops: c17Ops(tier, cfg.FullPipeline), Step: c17Step,
 					// keep exploring after a failed EndBlocker only when it did not fail (a halted chain has no successor)
 					Expand:   func(x *engine.Exec) bool { return !x.Res.Rejected && x.Res.Err == nil },
